@@ -336,3 +336,72 @@ func init() {
 	reg("C16", "", Rule{ID: "R20g", Doc: "ReleaseMsg resets every section from itself (a recycled message's sections do not share storage: the TCP reply is unpacked into a clean message)", Floor: 10, AllVariants: true, Run: r20g})
 	reg("C04", "", Rule{ID: "R20k", Doc: "a locally built response owns its Question record (not the query's)", Floor: 8, AllVariants: true, Run: r20k})
 }
+
+// ---------- R06f: a dialled connection is parked only on the arm where nobody took it ----------
+
+// The dial worker hands the new connection over with `select { case ch <- res: ; case <-ctx.Done(): }`. Only on the
+// Done arm — the hand-over did not happen — may the worker put the connection into the idle set (releaseConn(c, nil)).
+// Deciding that from anything else (a later poll of ctx.Err()) races with a cancellation that arrives just after the
+// send: the connection then has two owners.
+func r06f(c *core.Ctx) {
+	ad := c.Anchor(tpkg, "(*ReuseConnTransport).asyncDial")
+	if ad == nil {
+		return
+	}
+	n := 0
+	for _, fn := range append([]*ssa.Function{ad}, closuresOf(ad)...) {
+		var sel *ssa.Select
+		sendArm := -1
+		core.EachInstr(fn, func(_ *ssa.BasicBlock, _ int, in ssa.Instruction) {
+			if s, ok := in.(*ssa.Select); ok {
+				for k, st := range s.States {
+					if st.Dir == types.SendOnly {
+						sel, sendArm = s, k
+					}
+				}
+			}
+		})
+		if sel == nil {
+			continue
+		}
+		idx := extractOf(sel, 0)
+		for _, call := range core.Calls(fn) {
+			if !strings.HasSuffix(core.CallName(call), "ReuseConnTransport).releaseConn") {
+				continue
+			}
+			n++
+			okArm := false
+			for _, cnd := range core.CondsAt(call.Block()) {
+				cm, ok := core.CmpOf(cnd.Cond)
+				if !ok || cm.Op != "==" {
+					continue
+				}
+				var k int64
+				var other ssa.Value
+				if kk, isC := core.ConstInt(cm.XV); isC {
+					k, other = kk, cm.YV
+				} else if kk, isC := core.ConstInt(cm.YV); isC {
+					k, other = kk, cm.XV
+				} else {
+					continue
+				}
+				if other != idx {
+					continue
+				}
+				truth := cnd.Val != cm.Neg
+				if truth && int(k) != sendArm || !truth && int(k) == sendArm {
+					okArm = true
+				}
+			}
+			c.Check(okArm, fmt.Sprintf("parked-only-when-not-delivered#%d", n), call.Pos(), fn,
+				"the dial worker parks the connection only on the select arm where the hand-over did not happen", condList(call.Block()))
+		}
+	}
+	if n < 1 {
+		c.Unknown("dial-worker-parks", ad.Pos(), ad, "the dial worker parks an untaken connection (releaseConn after the hand-over select)", "no such call")
+	}
+}
+
+func init() {
+	reg("C06", "", Rule{ID: "R06f", Doc: "a dialled connection is parked only on the select arm where it was not delivered", Floor: 1, AllVariants: true, Run: r06f})
+}
